@@ -538,7 +538,18 @@ func (in *Interp) typeAssert(x *ssa.TypeAssert, v IfaceV) Value {
 		if it, isI := x.AssertedType.Underlying().(*types.Interface); isI {
 			switch v.V.(type) {
 			case *ErrObj:
-				ok = it.NumMethods() == 0 || (it.NumMethods() == 1 && it.Method(0).Name() == "Error")
+				ok = true
+				for i := 0; i < it.NumMethods(); i++ {
+					switch it.Method(i).Name() {
+					case "Error":
+					case "Cause", "Unwrap":
+						if v.V.(*ErrObj).Cause == nil {
+							ok = false
+						}
+					default:
+						ok = false
+					}
+				}
 			case *CtxObj:
 				ok = it.NumMethods() == 0 || isContextIface(it)
 			default:
